@@ -1,6 +1,14 @@
-(* Props_C03.v — pinned statements for property C03 (option semantics). *)
+(* Props_C03.v — pinned statements for property C03: a rule applies to a request only if every
+   option on it is satisfied (resource type, party, initiator domains, match-case, scheme), and it
+   applies whenever they all are and the pattern matches; unsupported schemes are never matched.
+   Only statements, `exact`, and Print Assumptions.  Model: C03_Model.v; tables: Generated.v. *)
 From Adb Require Import Base BaseProofs Generated C03_Model C03_Proofs.
 
+(* ---------------------------------------------------------------- check_options, any rule data *)
+(* For every mask, every pair of sorted hash arrays with unions that are absent or the OR of the
+   array, and every request: check_options is the conjunction of the property text.  Without a
+   source ([rq_src r = None]) [domains_ok] is [true]: initiator-domain options are then not
+   evaluated at all (by design of check_options; C01 finding F2 is about the index, not this). *)
 Theorem C03_check_options_spec : forall m od odu ond ondu r,
   osorted od -> osorted ond -> union_consistent od odu -> union_consistent ond ondu ->
   check_options m od odu ond ondu r =
@@ -8,3 +16,181 @@ Theorem C03_check_options_spec : forall m od odu ond ondu r,
   && domains_ok od ond (rq_src r).
 Proof. exact check_options_spec. Qed.
 Print Assumptions C03_check_options_spec.
+
+Theorem C03_domains_vacuous_without_source : forall od ond, domains_ok od ond None = true.
+Proof. exact domains_vacuous_without_source. Qed.
+Print Assumptions C03_domains_vacuous_without_source.
+
+(* NetworkFilter::matches is check_options && check_pattern: the options are necessary, and with a
+   matching pattern sufficient *)
+Theorem C03_matches_iff_options_and_pattern : forall opts_ok pattern_ok,
+  rule_matches opts_ok pattern_ok = true <-> opts_ok = true /\ pattern_ok = true.
+Proof. intros a b. unfold rule_matches. apply andb_true_iff. Qed.
+Print Assumptions C03_matches_iff_options_and_pattern.
+
+(* the `h & union != h` shortcuts never change the answer: all lists of numbers, sorted or not *)
+Theorem C03_union_prefilter_neutral : forall od odu ond ondu src,
+  union_consistent od odu -> union_consistent ond ondu ->
+  included_rejects od odu src = included_rejects od None src
+  /\ excluded_rejects ond ondu src = excluded_rejects ond None src.
+Proof. exact union_prefilter_neutral. Qed.
+Print Assumptions C03_union_prefilter_neutral.
+
+Theorem C03_member_in_union : forall l x, In x l -> N.land x (lor_list l) = x.
+Proof. exact member_in_union. Qed.
+Print Assumptions C03_member_in_union.
+
+(* binary search on a sorted array is membership *)
+Theorem C03_bin_lookup_sorted : forall l x, sorted_N l -> bin_lookup l x = memN x l.
+Proof. exact bin_lookup_spec. Qed.
+Print Assumptions C03_bin_lookup_sorted.
+
+(* all 17 request types, every mask: the type test is "the mask has the type's bit, or the request
+   is a document and the rule an exception" *)
+Theorem C03_check_cpt_allowed : forall m t,
+  check_cpt_allowed m t =
+  has_flag m (mask_of_request_type t) || (request_type_beq t RT_Document && is_exception m).
+Proof. exact check_cpt_allowed_spec. Qed.
+Print Assumptions C03_check_cpt_allowed.
+
+(* ---------------------------------------------------------------- tables: source vs documentation *)
+Theorem C03_option_table_agrees : forall name neg,
+  atom_of_outcome (lookup_option name neg) = l0_lookup name neg.
+Proof. exact option_table_agrees. Qed.
+Print Assumptions C03_option_table_agrees.
+
+Theorem C03_type_alias_table : forall raw, cpt_match_type raw = l0_cpt raw.
+Proof. exact cpt_table_agrees. Qed.
+Print Assumptions C03_type_alias_table.
+
+Theorem C03_request_class_agrees : forall t,
+  mask_of_request_type t =
+  match l0_class_of_request t with Some c => class_mask c | None => M_UNMATCHED end.
+Proof. exact request_class_agrees. Qed.
+Print Assumptions C03_request_class_agrees.
+
+(* ---------------------------------------------------------------- parsing *)
+Theorem C03_parse_rule_options_inv : forall h sh s p,
+  parse_rule_options h sh (Some s) = POk p ->
+  exists opts, parse_filter_options s = POk opts /\ forallb wf_optb opts = true
+               /\ validate_options opts = POk tt /\ build_rule h sh opts = POk p.
+Proof. exact parse_rule_options_inv. Qed.
+Print Assumptions C03_parse_rule_options_inv.
+
+(* every parsed rule carries sorted arrays whose unions are the OR of the arrays *)
+Theorem C03_parsed_rule_wf : forall h sh opts p, build_rule h sh opts = POk p ->
+  osorted (p_od p) /\ osorted (p_ond p)
+  /\ union_consistent (p_od p) (p_odu p) /\ union_consistent (p_ond p) (p_ondu p).
+Proof. exact parsed_rule_wf. Qed.
+Print Assumptions C03_parsed_rule_wf.
+
+(* mask construction: for every option list the parser can produce and every pattern shape,
+   decoding the mask gives the L0 semantics of the options *)
+Theorem C03_mask_of_options_types : forall h sh opts p,
+  forallb wf_optb opts = true -> build_rule h sh opts = POk p ->
+  forall c, has_flag (p_mask p) (class_mask c) = sem_allowed sh (map atom_of_nfopt opts) c.
+Proof. exact parsed_type_bits. Qed.
+Print Assumptions C03_mask_of_options_types.
+
+Theorem C03_mask_of_options_flags : forall h sh opts p,
+  forallb wf_optb opts = true -> build_rule h sh opts = POk p ->
+  third_party (p_mask p) = sem_third_ok (map atom_of_nfopt opts)
+  /\ first_party (p_mask p) = sem_first_ok (map atom_of_nfopt opts)
+  /\ for_http (p_mask p) = sem_http_ok (sh_scheme sh)
+  /\ for_https (p_mask p) = sem_https_ok (sh_scheme sh)
+  /\ is_badfilter (p_mask p) = has_atom A_badfilter (map atom_of_nfopt opts)
+  /\ is_exception (p_mask p) = sh_exception sh
+  /\ has_flag (p_mask p) M_MATCH_CASE = has_atom A_matchcase (map atom_of_nfopt opts)
+  /\ has_flag (p_mask p) M_UNMATCHED = false.
+Proof.
+  intros h sh opts p W H.
+  exact (conj (parsed_third_party h sh opts p W H) (conj (parsed_first_party h sh opts p W H)
+        (conj (parsed_for_http h sh opts p W H) (conj (parsed_for_https h sh opts p W H)
+        (conj (parsed_badfilter h sh opts p W H) (conj (parsed_exception h sh opts p W H)
+        (conj (parsed_match_case h sh opts p W H) (parsed_unmatched h sh opts p W H)))))))).
+Qed.
+Print Assumptions C03_mask_of_options_flags.
+
+(* ---------------------------------------------------------------- initiator domains *)
+(* On hashes: the included-domain test succeeds iff the source host or one of its dot-suffixes is a
+   listed domain — provided the hash is injective on the finite set of strings involved. *)
+Theorem C03_included_domains_iff : forall h names host l,
+  inj_on h (names ++ host_chain host) ->
+  (forall x, In x l <-> In x (map h names)) ->
+  (hit l (map h (host_chain host)) = true <-> exists d, In d names /\ dom_covers d host).
+Proof. exact included_hit_iff. Qed.
+Print Assumptions C03_included_domains_iff.
+
+Theorem C03_source_hashes_are_host_chain : forall h src,
+  source_hostname_hashes h src = if is_nil src then None else Some (map h (host_chain src)).
+Proof. exact source_hashes_chain. Qed.
+Print Assumptions C03_source_hashes_are_host_chain.
+
+Theorem C03_host_chain_covers : forall d host, In d (host_chain host) <-> dom_covers d host.
+Proof. exact host_chain_covers. Qed.
+Print Assumptions C03_host_chain_covers.
+
+(* string-level reading: some included domain covers the host, and no excluded one does
+   (a listed domain covers its subdomains; exclusions win) *)
+Theorem C03_l0_domains_ok_iff : forall inc exc host,
+  l0_domains_ok inc exc (Some host) = true <->
+  (match inc with Some l => exists d, In d l /\ dom_covers d host | None => True end)
+  /\ (match exc with Some l => ~ exists d, In d l /\ dom_covers d host | None => True end).
+Proof. exact l0_domains_ok_iff. Qed.
+Print Assumptions C03_l0_domains_ok_iff.
+
+(* ---------------------------------------------------------------- the L0 sentence for parsed rules *)
+(* For every option list the parser can produce, pattern shape, hash function injective on the
+   strings involved, and request built by from_detailed_parameters outside the F3 class
+   (rule restricted to http/https by its pattern, request neither http nor https):
+   the rule's options accept the request iff every option is satisfied in the L0 reading. *)
+Theorem C03_rule_applies_iff_options_satisfied : forall h sh opts p,
+  forallb wf_optb opts = true -> build_rule h sh opts = POk p ->
+  forall raw_type schema src third,
+  let r := from_detailed_parameters h raw_type schema src third in
+  inj_on h (names_of (sem_domains true opts None) ++ host_chain src) ->
+  inj_on h (names_of (sem_domains false opts None) ++ host_chain src) ->
+  f3_class sh r = false ->
+  rule_check_options p r =
+    negb (has_atom A_badfilter (map atom_of_nfopt opts))
+    && l0_type_ok (sem_allowed sh (map atom_of_nfopt opts)) (sh_exception sh) (rq_type r)
+    && l0_scheme_ok (sh_scheme sh) (scheme_of_request r)
+    && l0_party_ok (sem_third_ok (map atom_of_nfopt opts)) (sem_first_ok (map atom_of_nfopt opts)) third
+    && l0_domains_ok (sem_domains true opts None) (sem_domains false opts None)
+                     (if is_nil src then None else Some src).
+Proof. exact parsed_rule_l0. Qed.
+Print Assumptions C03_rule_applies_iff_options_satisfied.
+
+(* the scheme sentence holds for every http / https request *)
+Theorem C03_scheme_ok_http_https : forall h sh opts p,
+  forallb wf_optb opts = true -> build_rule h sh opts = POk p ->
+  forall r, xorb (rq_http r) (rq_https r) = true ->
+  scheme_ok (p_mask p) r = l0_scheme_ok (sh_scheme sh) (scheme_of_request r).
+Proof. exact parsed_scheme_ok_http. Qed.
+Print Assumptions C03_scheme_ok_http_https.
+
+(* F3 (known finding): `|http://` applies to a supported websocket request *)
+Theorem C03_scheme_refuted :
+  exists sh r p, build_rule H0 sh [] = POk p /\ rq_supported r = true
+    /\ rule_check_options p r = true
+    /\ l0_scheme_ok (sh_scheme sh) (scheme_of_request r) = false.
+Proof. exact scheme_refuted. Qed.
+Print Assumptions C03_scheme_refuted.
+
+(* ---------------------------------------------------------------- unsupported schemes *)
+Theorem C03_is_supported_iff : forall h raw_type schema src third,
+  rq_supported (from_detailed_parameters h raw_type schema src third) = mem_str schema supported_schemes.
+Proof. exact is_supported_iff. Qed.
+Print Assumptions C03_is_supported_iff.
+
+(* whatever the rest of check_parameterised does, an unsupported request gets the default result *)
+Theorem C03_unsupported_never : forall (R : Type) (default : R) (rest : request -> R) r,
+  rq_supported r = false -> check_parameterised default rest r = default.
+Proof. exact @unsupported_never. Qed.
+Print Assumptions C03_unsupported_never.
+
+Theorem C03_ws_forces_type : forall h raw_type schema src third,
+  mem_str schema [bs "ws"; bs "wss"]%string = true ->
+  rq_type (from_detailed_parameters h raw_type schema src third) = RT_Websocket.
+Proof. exact ws_forces_type. Qed.
+Print Assumptions C03_ws_forces_type.
